@@ -1,6 +1,7 @@
 package main
 
 import (
+	"go/token"
 	"go/types"
 	"strings"
 
@@ -200,6 +201,9 @@ func init() {
 		secretTypingRule(o)
 		o.MinSites(20)
 	})
+
+	reg("C17", "C17.9", "T11,T12", "the printed configuration loads back: a time range is printed as hour = minute/60 and minute%60 of its own bounds (24:00 stays 24:00), never through the clock formatter", timeRangePrintRule)
+	reg("C15", "C15.6", "T11,T12", "a time range prints as it parses: hour = minute/60, minute = minute%60 of its own bounds (24:00 stays 24:00)", timeRangePrintRule)
 
 	reg("C17", "C17.6", "T11,T3", "the status API serves the marshalled configuration; the raw input is only kept for Load and never served", func(o *Ob) {
 		e := o.E
@@ -644,4 +648,58 @@ func nilContradictionRule(o *Ob, pkgs ...string) {
 			}
 		}
 	}
+}
+
+// timeRangePrintRule: TimeRange.MarshalYAML / MarshalJSON print StartMinute and EndMinute as HH:MM with
+// HH = m/60 (so that the legal end 24:00 = 1440 prints as 24:00) and MM = m%60.
+func timeRangePrintRule(o *Ob) {
+	e := o.E
+	for _, name := range []string{"(am/timeinterval.TimeRange).MarshalYAML", "(am/timeinterval.TimeRange).MarshalJSON"} {
+		fn := o.Fn(name)
+		// nothing on the way formats through time.Time (which wraps at 24 h)
+		for _, in := range e.DeepInstrs(fn, 2) {
+			if c, ok := in.(ssa.CallInstruction); ok {
+				cn := calleeName(c.Common())
+				o.Check(!strings.HasPrefix(cn, "(time.Time).") && !strings.HasPrefix(cn, "time."), "timerange-clock|"+name, name+" formats a minute-of-day through "+cn+": 24:00 (1440) wraps to 00:00 and the printed range no longer loads", in)
+			}
+		}
+		// the two printed fields come from minute/60 and minute%60 of the matching bound
+		for fld, bound := range map[string]string{"StartTime": "StartMinute", "EndTime": "EndMinute"} {
+			var vals []ssa.Value
+			for _, f := range append([]*ssa.Function{fn}, Anons(fn)...) {
+				for _, st := range e.StoresToField(f, "am/timeinterval.yamlTimeRange", fld) {
+					vals = append(vals, st.Val)
+				}
+			}
+			if !o.Check(len(vals) >= 1, "timerange-field|"+name+"|"+fld, name+" no longer fills yamlTimeRange."+fld, nil) {
+				continue
+			}
+			for _, v := range vals {
+				o.SiteS(name + ": " + fld + " := " + e.X(fn, v))
+				quo, rem, foreign := false, false, false
+				for s := range e.Sources(v, true) {
+					b, ok := s.(*ssa.BinOp)
+					if !ok {
+						continue
+					}
+					x := e.X(fn, b.X)
+					isBound := strings.HasSuffix(x, "."+bound)
+					other := strings.HasSuffix(x, "Minute") && !isBound
+					if (b.Op == token.QUO || b.Op == token.REM) && isIntConst(b.Y, 60) {
+						if isBound && b.Op == token.QUO {
+							quo = true
+						}
+						if isBound && b.Op == token.REM {
+							rem = true
+						}
+						if other {
+							foreign = true
+						}
+					}
+				}
+				o.Check(quo && rem && !foreign, "timerange-arith|"+name+"|"+fld, fld+" must be printed as "+bound+"/60 : "+bound+"%60, is "+e.X(fn, v), nil)
+			}
+		}
+	}
+	o.MinSites(4)
 }
